@@ -357,6 +357,76 @@ Definition targets (asg : list (nat * iexpr)) : list nat := map fst asg.
 Definition stmt_ok (s : stmt) : Prop :=
   match s with SUpdate asg _ => NoDup (targets asg) | _ => True end.
 
+(* ------------------------------------------------------------------ the statement pipeline at the pinned commit
+   Between SQL text and MemTable the logical optimizer runs.  A WHERE clause it folds to FALSE or
+   NULL makes it replace the Filter node (and, for UPDATE, the Projection above it) by an
+   EmptyRelation; extract_dml_filters / extract_update_assignments then find no Filter / Projection
+   node and return nothing -- which delete_from / update read as "no filters = all rows".
+   [cfold_b] is the constant folding (an under-approximation of the simplifier: what it folds, the
+   simplifier folds). *)
+Definition cf2 {A B} (f : A -> A -> B) (x y : option (option A)) : option (option B) :=
+  match x, y with
+  | Some None, _ | _, Some None => Some None          (* NULL operand: NULL whatever the other side is *)
+  | Some (Some a), Some (Some b) => Some (Some (f a b))
+  | _, _ => None
+  end.
+
+Fixpoint cfold_i (e : iexpr) : option val :=
+  match e with
+  | ICol _ => None
+  | ILit z => Some (Some z)
+  | INull => Some None
+  | IAdd a b => cf2 Z.add (cfold_i a) (cfold_i b)
+  | ISub a b => cf2 Z.sub (cfold_i a) (cfold_i b)
+  | IMul a b => cf2 Z.mul (cfold_i a) (cfold_i b)
+  end.
+
+Fixpoint cfold_b (p : bexpr) : option (option bool) :=
+  match p with
+  | BLit b => Some (Some b)
+  | BNull => Some None
+  | BCmp op a b => cf2 (cmp_z op) (cfold_i a) (cfold_i b)
+  | BAnd p q =>
+      match cfold_b p, cfold_b q with
+      | Some (Some false), _ | _, Some (Some false) => Some (Some false)
+      | Some x, Some y => Some (and3 x y)
+      | _, _ => None
+      end
+  | BOr p q =>
+      match cfold_b p, cfold_b q with
+      | Some (Some true), _ | _, Some (Some true) => Some (Some true)
+      | Some x, Some y => Some (or3 x y)
+      | _, _ => None
+      end
+  | BNot p => option_map not3 (cfold_b p)
+  | BIsNull a => option_map (fun v => Some (match v with None => true | Some _ => false end)) (cfold_i a)
+  | BIsNotNull a => option_map (fun v => Some (match v with None => false | Some _ => true end)) (cfold_i a)
+  end.
+
+(* the WHERE clause folds to FALSE or NULL: no row qualifies *)
+Definition folds_away (w : option bexpr) : bool :=
+  match w with
+  | Some p => match cfold_b p with Some (Some true) => false | Some _ => true | None => false end
+  | None => false
+  end.
+
+Definition step_upstream (ncols : nat) (t : table) (s : stmt) : table * Z :=
+  match s with
+  | SDelete w =>
+      if folds_away w then let '(c, t') := delete_table [] t in (t', c)      (* Dml(Delete, EmptyRelation) *)
+      else step ncols t s
+  | SUpdate asg w =>
+      if folds_away w then let '(c, t') := update_table [] [] t in (t', c)   (* no Projection left either *)
+      else step ncols t s
+  | _ => step ncols t s
+  end.
+
+Fixpoint trace_upstream (ncols : nat) (t : table) (ss : list stmt) : list (table * Z) :=
+  match ss with
+  | [] => []
+  | s :: r => let '(t1, c) := step_upstream ncols t s in (t1, c) :: trace_upstream ncols t1 r
+  end.
+
 (* ------------------------------------------------------------------ correspondence *)
 Definition val_eqb : val -> val -> bool := zopt_eqb.
 Definition row_eqb : row -> row -> bool := list_eqb val_eqb.
@@ -369,3 +439,9 @@ Definition obs_eqb (a b : table * Z) : bool := table_eqb (fst a) (fst b) && (snd
 
 Definition c39_check (c : c39_case) : bool :=
   match c with C39 n t0 ss obs => list_eqb obs_eqb (trace n t0 ss) obs end.
+
+(* histories that run into the constant-WHERE defect are compared with the pipeline as it is *)
+Inductive c39u_case := C39U (ncols : nat) (t0 : table) (ss : list stmt) (obs : list (table * Z)).
+
+Definition c39u_check (c : c39u_case) : bool :=
+  match c with C39U n t0 ss obs => list_eqb obs_eqb (trace_upstream n t0 ss) obs end.
